@@ -24,6 +24,9 @@ over a linear order:
 * `java_equals_spec`, `java_compare_lex`, `java_compare_antisymm`, `java_compare_consistent_equals`
 * `tostring_mentions_all`, `cpp_tostring_args`   the string form mentions every field
 * `cpp_declared_defined`, `java_members_consistent`   emission decisions
+* `parse_eq_map`, `parse_default_eq`, `parse_default_ord`, `parse_explicit_kept`, `parse_no_default`   a record derives
+  `explicit ∪ generate.default_deriving` in whatever file of the import graph it is declared
+* `default_eq_emitted`, `default_ord_emitted`, `withDefault_none`   the configured default reaches the emission decisions
 -/
 namespace Pydjinni.Gen
 open Pydjinni.Lang.MiniImp
@@ -470,6 +473,66 @@ theorem cpp_declared_defined (c : RecordCfg) :
 /-- `compareTo` is only emitted together with `implements Comparable`, `equals` only together with `hashCode` -/
 theorem java_members_consistent (c : RecordCfg) :
     javaHasCompareTo c = javaImplementsComparable c ∧ javaHasEquals c = javaHasHashCode c := ⟨rfl, rfl⟩
+
+/-! ## `generate.default_deriving` and `@import` -/
+
+mutual
+/-- a record derives its explicit set united with `generate.default_deriving` — in whatever file of the import graph,
+at whatever depth, it is declared -/
+theorem parse_eq_map (dEq dOrd : Bool) : ∀ f : IdlFile, f.parse dEq dOrd = f.decls.map (RecDecl.withDefault dEq dOrd)
+  | .mk imports records => by
+    simp only [IdlFile.parse, IdlFile.decls, List.map_append, parseAll_eq_map dEq dOrd imports]
+theorem parseAll_eq_map (dEq dOrd : Bool) : ∀ fs : List IdlFile,
+    IdlFile.parseAll dEq dOrd fs = (IdlFile.declsAll fs).map (RecDecl.withDefault dEq dOrd)
+  | [] => by simp [IdlFile.parseAll, IdlFile.declsAll]
+  | f :: fs => by
+    simp only [IdlFile.parseAll, IdlFile.declsAll, List.map_append, parse_eq_map dEq dOrd f, parseAll_eq_map dEq dOrd fs]
+end
+
+/-- with `default_deriving: [eq]` every record of every file derives `eq` (likewise `ord`) -/
+theorem parse_default_eq (dOrd : Bool) (f : IdlFile) : ∀ r ∈ f.parse true dOrd, r.eq = true := by
+  rw [parse_eq_map]; intro r hr
+  obtain ⟨q, _, rfl⟩ := List.mem_map.mp hr
+  simp [RecDecl.withDefault]
+
+theorem parse_default_ord (dEq : Bool) (f : IdlFile) : ∀ r ∈ f.parse dEq true, r.ord = true := by
+  rw [parse_eq_map]; intro r hr
+  obtain ⟨q, _, rfl⟩ := List.mem_map.mp hr
+  simp [RecDecl.withDefault]
+
+/-- what is written explicitly is never lost, and without a default the declarations are taken as written -/
+theorem parse_explicit_kept (dEq dOrd : Bool) (f : IdlFile) :
+    ∀ r ∈ f.parse dEq dOrd, ∃ q ∈ f.decls, r.name = q.name ∧ (q.eq = true → r.eq = true) ∧ (q.ord = true → r.ord = true) := by
+  rw [parse_eq_map]; intro r hr
+  obtain ⟨q, hq, rfl⟩ := List.mem_map.mp hr
+  exact ⟨q, hq, rfl, by simp [RecDecl.withDefault]; intro h; simp [h], by simp [RecDecl.withDefault]; intro h; simp [h]⟩
+
+theorem parse_no_default (f : IdlFile) : f.parse false false = f.decls := by
+  rw [parse_eq_map]
+  have : RecDecl.withDefault false false = id := by funext r; cases r; simp [RecDecl.withDefault]
+  rw [this, List.map_id]
+
+/-- a record with fields that gets `eq` (`ord`) from the configuration gets the operators in both targets, declared and defined -/
+theorem default_eq_emitted (c : RecordCfg) (dOrd : Bool) (h : c.nFields ≠ 0) :
+    cppDeclaresEq (c.withDefault true dOrd) = true ∧ cppDefinesEq (c.withDefault true dOrd) = true ∧
+    javaHasEquals (c.withDefault true dOrd) = true ∧ javaHasHashCode (c.withDefault true dOrd) = true := by
+  cases c with | mk eq ord n ss base jss =>
+  simp only [RecordCfg.withDefault, cppDeclaresEq, cppDefinesEq, cppWritesSource, javaHasEquals, javaHasHashCode] at *
+  simp [h]
+
+theorem default_ord_emitted (c : RecordCfg) (dEq : Bool) (h : c.nFields ≠ 0) :
+    cppDeclaresOrd (c.withDefault dEq true) = true ∧ cppDefinesOrd (c.withDefault dEq true) = true ∧
+    javaHasCompareTo (c.withDefault dEq true) = true ∧ javaImplementsComparable (c.withDefault dEq true) = true := by
+  cases c with | mk eq ord n ss base jss =>
+  simp only [RecordCfg.withDefault, cppDeclaresOrd, cppDefinesOrd, cppWritesSource, javaHasCompareTo, javaImplementsComparable] at *
+  simp [h]
+
+theorem withDefault_none (c : RecordCfg) : c.withDefault false false = c := by
+  cases c; simp [RecordCfg.withDefault]
+
+/-- two levels of `@import`, the deepest record without explicit deriving, `default_deriving: [eq]` -/
+example : (IdlFile.mk [.mk [.mk [] [⟨"p", false, false⟩]] [⟨"q", false, true⟩]] [⟨"r", true, false⟩]).parse true false
+    = [⟨"p", true, false⟩, ⟨"q", true, true⟩, ⟨"r", true, false⟩] := by decide
 
 /-- with `string_serialization` an empty record's `to_string` is declared but its source file is not written -/
 theorem cpp_tostring_declared_not_defined_example :
